@@ -529,3 +529,86 @@ func (g *Gen) InvalidOpOf(class string) OpSpec {
 	o.Invalid = class
 	return o
 }
+
+// Closed generates ADD operations, in dependency order, that build a
+// reference-closed RIB (no operation is ever held) over the given NIs.
+func (g *Gen) Closed(nis []string, density float64) []OpSpec {
+	var out []OpSpec
+	type inst struct {
+		ni string
+		id uint64
+	}
+	nhs := map[string][]uint64{}
+	var nhgs []inst
+	for _, ni := range nis {
+		for k, idx := range g.S.NHs {
+			if g.chance(density) {
+				out = append(out, g.MkOp(spb.AFTOperation_ADD, canon.NH, ni, k, true))
+				nhs[ni] = append(nhs[ni], idx)
+			}
+		}
+	}
+	for _, ni := range nis {
+		if len(nhs[ni]) == 0 {
+			continue
+		}
+		for k, id := range g.S.NHGs {
+			if !g.chance(density) {
+				continue
+			}
+			o := g.MkOp(spb.AFTOperation_ADD, canon.NHG, ni, k, false)
+			p := &aftpb.Afts_NextHopGroup{}
+			perm := g.R.Perm(len(nhs[ni]))
+			for i := 0; i < 1+g.R.Intn(len(nhs[ni])); i++ {
+				m := &aftpb.Afts_NextHopGroup_NextHopKey{Index: nhs[ni][perm[i]], NextHop: &aftpb.Afts_NextHopGroup_NextHop{}}
+				if g.chance(0.6) {
+					m.NextHop.Weight = U(uint64(1 + g.R.Intn(8)))
+				}
+				p.NextHop = append(p.NextHop, m)
+			}
+			if g.chance(0.2) {
+				p.BackupNextHopGroup = U(pick(g.R, g.S.NHGs))
+			}
+			o.Op.GetNextHopGroup().NextHopGroup = p
+			out = append(out, o)
+			nhgs = append(nhgs, inst{ni, id})
+		}
+	}
+	if len(nhgs) == 0 {
+		return out
+	}
+	for _, ni := range nis {
+		for _, t := range []canon.Table{canon.V4, canon.V6, canon.MPLS} {
+			n := len(g.S.V4)
+			if t == canon.V6 {
+				n = len(g.S.V6)
+			} else if t == canon.MPLS {
+				n = len(g.S.Labels)
+			}
+			for k := 0; k < n; k++ {
+				if !g.chance(density) {
+					continue
+				}
+				tgt := nhgs[g.R.Intn(len(nhgs))]
+				o := g.MkOp(spb.AFTOperation_ADD, t, ni, k, true)
+				var niRef *wpb.StringValue
+				if tgt.ni != ni || g.chance(0.3) {
+					niRef = S(tgt.ni)
+				}
+				switch t {
+				case canon.V4:
+					o.Op.GetIpv4().Ipv4Entry.NextHopGroup = U(tgt.id)
+					o.Op.GetIpv4().Ipv4Entry.NextHopGroupNetworkInstance = niRef
+				case canon.V6:
+					o.Op.GetIpv6().Ipv6Entry.NextHopGroup = U(tgt.id)
+					o.Op.GetIpv6().Ipv6Entry.NextHopGroupNetworkInstance = niRef
+				case canon.MPLS:
+					o.Op.GetMpls().LabelEntry.NextHopGroup = U(tgt.id)
+					o.Op.GetMpls().LabelEntry.NextHopGroupNetworkInstance = niRef
+				}
+				out = append(out, o)
+			}
+		}
+	}
+	return out
+}
